@@ -386,4 +386,5 @@ add("C14", "relative change evaluated between two vanishing energies", "nifty/cl
 add("C27", "output globals set only when a directory is given", "nifty/cl/minimization/optimize_kl.py", "    _output_directory = output_directory\n    _save_strategy = save_strategy\n    if output_directory is not None:\n", "    if output_directory is not None:\n        _output_directory = output_directory\n        _save_strategy = save_strategy\n", "R27.13")
 add("C27", "dry run keeps the initial sample list", "nifty/cl/minimization/optimize_kl.py", "            sl = _single_value_sample_list(mean, comm(iglobal))\n            pop_sseq()\n            continue\n", "            pop_sseq()\n            continue\n", "R27.14")
 add("C01", "partial diagonal reshaped without the axis permutation", "nifty/cl/operators/diagonal_operator.py", "            if perm != tuple(range(len(perm))):\n                self._ldiag = np.transpose(self._ldiag, perm)\n", "", "R01.9")
+add("C02", "mean-removing wrapper uses one formula for both modes", "nifty/cl/operators/convolution_operators.py", "        if mode == self.TIMES:\n            mean = x.s_mean()\n            return mean + self._op.apply(x - mean, mode)\n", "        mean = x.s_mean()\n        return mean + self._op.apply(x - mean, mode)\n", "R02.14")
 VARIANTS = V
